@@ -56,6 +56,39 @@ pub fn child(mode: &str, start: usize) {
             .collect();
         writeln!(out.lock(), "mincost {}", v.join(" ")).unwrap();
         out.lock().flush().unwrap();
+        // the two kinds of query on ONE generator, interleaved in both orders: the answers must be those
+        // of the fresh generators above (the accessors share nothing but the grammar)
+        let mut mixed: Vec<String> = Vec::new();
+        for order in 0..2 {
+            let sg = g.sentence_generator(|t: TIdx<u32>| costs[usize::from(t)]);
+            let mut mx: Vec<String> = Vec::new();
+            let mut mn: Vec<String> = Vec::new();
+            for r in rules.iter() {
+                let qmax = |mx: &mut Vec<String>| {
+                    mx.push(match guarded(std::panic::AssertUnwindSafe(|| sg.max_sentence_cost(*r))) {
+                        Ok(Some(c)) => c.to_string(),
+                        Ok(None) => "N".to_string(),
+                        Err(_) => "P".to_string(),
+                    })
+                };
+                let qmin = |mn: &mut Vec<String>| {
+                    mn.push(match guarded(std::panic::AssertUnwindSafe(|| sg.min_sentence_cost(*r))) {
+                        Ok(c) => c.to_string(),
+                        Err(_) => "P".to_string(),
+                    })
+                };
+                if order == 0 {
+                    qmin(&mut mn);
+                    qmax(&mut mx);
+                } else {
+                    qmax(&mut mx);
+                    qmin(&mut mn);
+                }
+            }
+            mixed.push(format!("{}|{}", mx.join(" "), mn.join(" ")));
+        }
+        writeln!(out.lock(), "mixed {}", mixed.join("|")).unwrap();
+        out.lock().flush().unwrap();
         return;
     }
     for r in rules.iter().skip(start) {
@@ -202,12 +235,28 @@ fn emit(out: &mut Out, text: &str, costs_in: Option<Vec<u8>>, rng: &mut Rng, kin
     let lines = run_child(text, &costs, "costs", 0, Duration::from_millis(1500));
     let mut maxcost = vec!["H".to_string(); nr];
     let mut mincost = vec!["H".to_string(); nr];
+    let mut mixed: Option<String> = None;
     for l in &lines {
         let mut it = l.splitn(2, ' ');
         match (it.next(), it.next()) {
             (Some("maxcost"), Some(r)) => maxcost = r.split(' ').map(|x| x.to_string()).collect(),
             (Some("mincost"), Some(r)) => mincost = r.split(' ').map(|x| x.to_string()).collect(),
+            (Some("mixed"), Some(r)) => mixed = Some(r.to_string()),
             _ => {}
+        }
+    }
+    if let Some(m) = &mixed {
+        let f: Vec<&str> = m.split('|').collect();
+        let (mx, mn) = (maxcost.join(" "), mincost.join(" "));
+        // a query that panicked on the fresh generator (known finding) is not compared
+        if f.len() == 4 && !mx.contains('P') && !mn.contains('P') && !mx.contains('H') && !mn.contains('H') {
+            out.count("cost_queries_interleaved");
+            if f[0] != mx || f[2] != mx {
+                hfail.get_or_insert(format!("sentence-cost-queries-interfere: max_sentence_cost answers [{}] on a fresh generator but [{}] / [{}] when min_sentence_cost is asked on the same generator before / after it", mx, f[0], f[2]));
+            }
+            if f[1] != mn || f[3] != mn {
+                hfail.get_or_insert(format!("sentence-cost-queries-interfere: min_sentence_cost answers [{}] on a fresh generator but [{}] / [{}] when max_sentence_cost is asked on the same generator after / before it", mn, f[1], f[3]));
+            }
         }
     }
     let mut hung = 0u64;
